@@ -11,7 +11,7 @@
      SymEngine's Integer/Rational are canonical); the weights are values of the small
      domain {rational, zoo (ComplexInf), nan} because SymEngine's div(a, 0) returns
      ComplexInf (a <> 0) or NaN instead of throwing, and add/mul propagate them with the
-     (order-dependent) rules tabulated below -- this only matters for grids with repeated
+     rules tabulated below -- this only matters for grids with repeated
      points, which the property excludes, but it is what the code does.              *)
 From SE Require Export Base.Prelude.
 From Coq Require Export QArith Qcanon.
@@ -36,8 +36,8 @@ Definition vmulq (q : Qc) (v : val) : val :=
   | VNan => VNan
   end.
 
-(* sub(a, b) = add(a, mul(minus_one, b)); Add folds its numeric coefficient from the
-   left: zoo + nan = zoo but nan + zoo = nan *)
+(* sub(a, b) = add(a, mul(minus_one, b)): zoo - zoo = nan, nan absorbs on either side
+   (since the library fix "Infty arithmetic ignored a NaN operand": zoo + nan = nan) *)
 Definition vsub (a b : val) : val :=
   match a, b with
   | VQ x, VQ y => VQ (Qcminus x y)
@@ -45,7 +45,7 @@ Definition vsub (a b : val) : val :=
   | VQ _, VNan => VNan
   | VZoo, VQ _ => VZoo
   | VZoo, VZoo => VNan
-  | VZoo, VNan => VZoo
+  | VZoo, VNan => VNan
   | VNan, _ => VNan
   end.
 
